@@ -509,6 +509,104 @@ def foldX (env : Env J S C) (cfg : Cfg) (st : Stats) (raw : Text) (call : List S
                     x.confidence, x.coercions, x.strategyUsed⟩)
   | none => pure (o.stats, ⟨false, none, raw, some (.allFailed strategies.length), o.attempts, cFailed, [], none⟩)
 
+/-! ### the user callbacks of `fold` / `fold_enhanced`: co-chaperone preprocessors and `on_misfold`
+
+Both run OUTSIDE the per-strategy `try`: an exception a callback raises leaves the fold (after `_total_folds` was
+incremented).  `fold` / `foldX` above are the two methods for a Chaperone whose `co_chaperones` dict has no entry for
+the target schema and whose `on_misfold` is falsy (`c11_without_callbacks_nothing_changes`). -/
+
+/-- The user callbacks one `fold` / `fold_enhanced` call can reach; each is an arbitrary function that returns or
+    raises any exception class. -/
+structure Hooks (S C : Type) where
+  /-- `self.co_chaperones[target_schema]` when `target_schema in self.co_chaperones` -/
+  pre : Option (Text → Res Text)
+  /-- `self.on_misfold` when it is truthy (`if self.on_misfold:`) -/
+  onMisfold : Option (FoldedX S C → Res Unit)
+
+/-- no co-chaperone registered for the schema, no (truthy) `on_misfold` -/
+def Hooks.absent : Hooks S C := ⟨none, none⟩
+
+/-- One invocation of a user callback, with what it was given and what it did. -/
+inductive HookCall (S C : Type) where
+  | pre (raw : Text) (r : Res Text)
+  | misfold (rep : FoldedX S C) (r : Res Unit)
+
+/-- What a fold with callbacks leaves behind: the counters (also when an exception leaves the method), the user
+    callbacks invoked in order, the library calls made, and the returned report or the propagating exception. -/
+structure HOut (J S C α : Type) where
+  stats : Stats
+  hooks : List (HookCall S C)
+  trace : Tr J S C
+  res : Res α
+
+/-- the `EnhancedFoldedProtein(valid=False, raw_peptide_chain=raw, error_trace="All n …", attempts=attempts,
+    confidence=0.0)` both methods build when every strategy failed (`raw` is the text the caller passed, not the
+    preprocessed one) -/
+def misfoldReport (raw : Text) (n : Nat) (atts : List AttRec) : FoldedX S C :=
+  ⟨false, none, raw, some (.allFailed n), atts, cFailed, [], none⟩
+
+/-- `if self.on_misfold: self.on_misfold(report)` followed by `return result` -/
+def callMisfold {α : Type} (hk : Hooks S C) (stats : Stats) (hooks : List (HookCall S C)) (tr : Tr J S C)
+    (rep : FoldedX S C) (result : α) : HOut J S C α :=
+  match hk.onMisfold with
+  | none => ⟨stats, hooks, tr, .ok result⟩
+  | some g =>
+    match g rep with
+    | .ok _ => ⟨stats, hooks ++ [.misfold rep (.ok ())], tr, .ok result⟩
+    | .raise e => ⟨stats, hooks ++ [.misfold rep (.raise e)], tr, .raise e⟩
+
+/-- `fold` from the strategy loop on: the strategies work on `processed`, every report echoes `raw` -/
+def foldHOn (env : Env J S C) (hk : Hooks S C) (cfg : Cfg) (st : Stats) (raw processed : Text)
+    (call : List Strategy) (hooks : List (HookCall S C)) : HOut J S C (Folded S) :=
+  let strategies := effective cfg call
+  let st1 : Stats := ⟨st.total + 1, st.successful, st.succ, st.att⟩
+  match loopP env processed strategies st1 [] with
+  | ⟨tr, .raise e⟩ => ⟨st1, hooks, tr, .raise e⟩
+  | ⟨tr, .ok o⟩ =>
+    match o.hit with
+    | some (_, p) => ⟨o.stats, hooks, tr, .ok ⟨true, p.struct, raw, none⟩⟩
+    | none =>
+      callMisfold hk o.stats hooks tr (misfoldReport raw strategies.length o.attempts)
+        ⟨false, none, raw, some (.allFailed strategies.length)⟩
+
+/-- `fold_enhanced` from the strategy loop on; when every strategy failed the report handed to `on_misfold` is the
+    object that is returned -/
+def foldXHOn (env : Env J S C) (hk : Hooks S C) (cfg : Cfg) (st : Stats) (raw processed : Text)
+    (call : List Strategy) (hooks : List (HookCall S C)) : HOut J S C (FoldedX S C) :=
+  let strategies := effective cfg call
+  let st1 : Stats := ⟨st.total + 1, st.successful, st.succ, st.att⟩
+  match loopX env processed strategies st1 [] with
+  | ⟨tr, .raise e⟩ => ⟨st1, hooks, tr, .raise e⟩
+  | ⟨tr, .ok o⟩ =>
+    match o.hit with
+    | some (s, x) =>
+      ⟨o.stats, hooks, tr, .ok ⟨x.valid, x.struct, raw, x.err.map .attempt, o.attempts ++ [⟨s, true, none⟩],
+                                x.confidence, x.coercions, x.strategyUsed⟩⟩
+    | none =>
+      callMisfold hk o.stats hooks tr (misfoldReport raw strategies.length o.attempts)
+        (misfoldReport raw strategies.length o.attempts)
+
+/-- `processed_input = raw; if target_schema in self.co_chaperones: processed_input = self.co_chaperones[…](raw)` —
+    after `self._total_folds += 1`, outside every `try` -/
+def withPre {α : Type} (hk : Hooks S C) (st : Stats) (raw : Text)
+    (k : Text → List (HookCall S C) → HOut J S C α) : HOut J S C α :=
+  match hk.pre with
+  | none => k raw []
+  | some f =>
+    match f raw with
+    | .ok t => k t [.pre raw (.ok t)]
+    | .raise e => ⟨⟨st.total + 1, st.successful, st.succ, st.att⟩, [.pre raw (.raise e)], [], .raise e⟩
+
+/-- `Chaperone.fold` on an instance with callbacks -/
+def foldH (env : Env J S C) (hk : Hooks S C) (cfg : Cfg) (st : Stats) (raw : Text) (call : List Strategy) :
+    HOut J S C (Folded S) :=
+  withPre hk st raw fun t hooks => foldHOn env hk cfg st raw t call hooks
+
+/-- `Chaperone.fold_enhanced` on an instance with callbacks -/
+def foldXH (env : Env J S C) (hk : Hooks S C) (cfg : Cfg) (st : Stats) (raw : Text) (call : List Strategy) :
+    HOut J S C (FoldedX S C) :=
+  withPre hk st raw fun t hooks => foldXHOn env hk cfg st raw t call hooks
+
 end
 
 /-! ### `ChaperoneLoop.heal` (operon_ai/healing/chaperone_loop.py)
